@@ -32,7 +32,7 @@ Definition as_str (b : bytes) : M bytes :=
 (* The conversion applied to a scanned symbol / R6RS string: StrRead skips the
    check (from_utf8_unchecked), SliceRead and IoRead validate. *)
 Definition finish_str (b : bytes) : M bytes :=
-  fun s => match rk (rd s) with
+  fun s => match rk s with
            | SrcStr => ret b s
            | _ => as_str b s
            end.
@@ -68,14 +68,14 @@ Definition advance_over (r : reader) (bs : bytes) (rest : list event) : reader :
 
 Definition scan_symbol_slice (scratch : bytes) : M bytes :=
   fun s =>
-    let '(scanned, rest) := span_symbol (rinput (rd s)) [] in
-    let s' := with_rd s (advance_over (rd s) scanned rest) in
+    let '(scanned, rest) := span_symbol (rinput s) [] in
+    let s' := advance_over s scanned rest in
     let whole := scratch ++ scanned in
     if beq_bytes whole [46] then error InvalidSymbol s' else ret whole s'.
 
 (* Read::parse_symbol *)
 Definition parse_symbol_rd (fuel : nat) (scratch : bytes) : M bytes :=
-  fun s => match rk (rd s) with
+  fun s => match rk s with
            | SrcIo => (b <- scan_symbol_io fuel scratch ;; as_str b) s
            | _ => (b <- scan_symbol_slice scratch ;; finish_str b) s
            end.
@@ -139,11 +139,11 @@ Fixpoint r6rs_str_slice (fuel : nat) (scratch : bytes) : M bytes :=
   | O => out_of_fuel
   | S f =>
       fun s =>
-        let '(run, rest) := span_plain (rinput (rd s)) [] in
-        let s1 := with_rd s (advance_over (rd s) run rest) in
+        let '(run, rest) := span_plain (rinput s) [] in
+        let s1 := advance_over s run rest in
         match rest with
         | EByte b :: rest' =>
-            let s2 := with_rd s1 (consume (rd s1) b rest') in
+            let s2 := consume s1 b rest' in
             if b =? 34 then ret (scratch ++ run) s2
             else (e <- parse_r6rs_escape f ;; r6rs_str_slice f (scratch ++ run ++ e)) s2
         | _ => error EofWhileParsingString s1
@@ -152,7 +152,7 @@ Fixpoint r6rs_str_slice (fuel : nat) (scratch : bytes) : M bytes :=
 
 (* Read::parse_r6rs_str *)
 Definition parse_r6rs_str_rd (fuel : nat) : M bytes :=
-  fun s => match rk (rd s) with
+  fun s => match rk s with
            | SrcIo => (b <- r6rs_str_io fuel [] ;; as_str b) s
            | _ => (b <- r6rs_str_slice fuel [] ;; finish_str b) s
            end.
@@ -299,13 +299,13 @@ Fixpoint elisp_str_slice (fuel : nat) (fl : elisp_flags) (scratch : bytes) : M e
   | O => out_of_fuel
   | S f =>
       fun s =>
-        let '(run, rest) := span_plain (rinput (rd s)) [] in
-        let s1 := with_rd s (advance_over (rd s) run rest) in
+        let '(run, rest) := span_plain (rinput s) [] in
+        let s1 := advance_over s run rest in
         let fl1 := if existsb (fun b => 127 <? b) run
                    then {| seen_ub := seen_ub fl; seen_mb := seen_mb fl; seen_na := true |} else fl in
         match rest with
         | EByte b :: rest' =>
-            let s2 := with_rd s1 (consume (rd s1) b rest') in
+            let s2 := consume s1 b rest' in
             if b =? 34 then elisp_finish fl1 (scratch ++ run) s2
             else (r <- parse_elisp_escape f ;;
                   elisp_str_slice f (note_escape fl1 (snd r)) (scratch ++ run ++ fst r)) s2
@@ -316,7 +316,7 @@ Fixpoint elisp_str_slice (fuel : nat) (fl : elisp_flags) (scratch : bytes) : M e
 (* Read::parse_elisp_str (StrRead validates too: escapes may produce any byte) *)
 Definition parse_elisp_str_rd (fuel : nat) : M elisp_str :=
   let fl0 := {| seen_ub := false; seen_mb := false; seen_na := false |} in
-  fun s => match rk (rd s) with
+  fun s => match rk s with
            | SrcIo => elisp_str_io fuel fl0 [] s
            | _ => elisp_str_slice fuel fl0 [] s
            end.
